@@ -243,6 +243,10 @@ def take_items(s, names):
                 start = prev + 1
             else:
                 break
+        if kind == 'fn':
+            a, bo, bc = rsrc.find_fn(s, ident)
+            out.append(s[start:bc + 1])
+            continue
         brace = s.index('{', m.end())
         close = rsrc.match_close(s, brace)
         out.append(s[start:close + 1])
@@ -486,6 +490,8 @@ def unit_def(unit):
         files.append((d + '/parser.rs', None))
     elif part == 'ast':
         files = [(d + '/ast.rs', None)]
+    elif part == 'glue':
+        files = [(d + '/mod.rs', ['fn eval_' + stack])]
     elif part == 'tok':
         files = [('src/utils/superscript.rs', None), ('src/utils/deserialize_superscript_number.rs', None),
                  (d + '/token.rs', ['enum NativeFunction', 'enum Token']), (d + '/tokenizer.rs', None)]
@@ -599,6 +605,9 @@ def unit_rewrites(ud, rel, s, rw):
         s = rw.literal('T8', s, 'std::f64::consts::E', 'c_e()')
         s = rw.literal('T8', s, 'Decimal::PI', 'dec_c_pi()')
         s = rw.literal('T8', s, 'Decimal::E', 'dec_c_e()')
+    if rel.endswith('/mod.rs') and part == 'glue':
+        # T19: `expr.split_whitespace().collect::<String>()` -> helper with an assumed contract (body = the original expression)
+        s = rw.literal('T19', s, 'expr.split_whitespace().collect::<String>()', 'verif_strip_ws(&expr)', expect=1)
     if rel.endswith('/tokenizer.rs') or rel.endswith('deserialize_superscript_number.rs'):
         # T10: the two adapter-chain idioms -> helpers with assumed contracts (bodies are the original expressions)
         s = rw.regex('T10', s, r'self\.expr\.clone\(\)\.take\((\d+)\)\.collect::<String>\(\)', r'verif_peek_str(&self.expr, \1)')
